@@ -3,7 +3,8 @@
     {"op":"bs",  "state":[[tags of mode 0],…], "outs":[state,…]}
         every state of every request is read through `native` (Model/C03Mixed.lean); "bs" also returns the relabelled
         state, `mixedGroups` and the annotation map
-    {"op":"sv",  "terms":[{"coef":[re,im],"state":…},…], "outs":[…]}
+    {"op":"sv",  "terms":[{"coef":[re,im],"state":…},…], "outs":[…][, "pouts":[occupation,…]]}
+        also `probsSVentry` (the dispatch of `probs(StateVector)` on the number of components) and `probabilitySV` for "pouts"
     {"op":"svd", "members":[{"w":"1/3","terms":[…]},…], "prec":"1/1000000", "minp":"0"[, "bound":true]}
         with "bound": the exactly computed error bound of Props/C03 section 10 (`errD`, `errTot`, `errNormAt`) and
         whether the hypotheses of `probsSvd_precision_bound` hold for this input
@@ -19,6 +20,7 @@ import PercevalModel.SimProto
 import PercevalModel.Model.C03
 import PercevalModel.Model.C03Prec
 import PercevalModel.Model.C03Evolve
+import PercevalModel.Model.C03Entry
 import PercevalModel.Model.C03Mixed
 import PercevalModel.Model.C03Keys
 
@@ -131,7 +133,20 @@ def handleE (j : Json) : Except String Json := do
           let cut2 ← ratOfJson c
           pure ((evolveFields U ts cut2).filter fun f => f.1 == "loss" || f.1 == "outNorm2" || f.1 == "ncontribs")
         | .error _ => pure []
-      return Json.mkObj (cutFields ++ [("tags", toJson univ), ("evolve", ampsToJson ev),
+      -- the entry points that only dispatch (Model/C03Entry.lean): `probs(StateVector)` with its one-component branch,
+      -- `probability(StateVector, BasicState)` for the requested occupations ("pouts")
+      let pouts : List Fock ← match j.getObjVal? "pouts" with
+        | .ok a => do (← a.getArr?).toList.mapM natList
+        | .error _ => pure []
+      let entry := probsSVentry U ts
+      -- `probabilitySV U ts t` = `probabilityOf m (evolveRaw U ts) (outNorm2 U ts) t` by definition: the vector once
+      let evRaw := evolveRaw U ts
+      let evN2 := outNorm2 U ts
+      let entryFields : List (String × Json) :=
+        [("entry", distToJson entry), ("entryBranch", toJson (if ts.length == 1 then "single" else "evolve")),
+         ("entry_is_spec", toJson (sameDist entry (probsSV U ts))),
+         ("probabilitySV", Json.arr (pouts.map fun t => Json.arr #[toJson t, ratToJson (probabilityOf m evRaw evN2 t)]).toArray)]
+      return Json.mkObj (cutFields ++ entryFields ++ [("tags", toJson univ), ("evolve", ampsToJson ev),
         ("evolve_is_spec", toJson (sameAmps ev spec)), ("norm2", ratToJson (svNorm2 ts)),
         ("probs", distToJson (probsSVcode U ts)), ("spec", distToJson (probsSV U ts)),
         ("each", Json.arr each.toArray),
